@@ -18,7 +18,9 @@ STR_FORMS = ['"{0}"', "'{0}'", '"""{0}"""', 'r"{0}"', '"{0}" ""', "'''{0}'''",
 YIELD_WRAPS = ["plain", "if", "for", "while", "with", "asyncwith", "asyncfor", "try", "except", "else", "finally",
                "assign", "nestedfn", "return_paren", "if_else_only", "for_else", "while_else", "yield_from", "elif",
                # several yields: the recorded yield line is the FIRST in source order, nested or not
-               "nested_then_top", "top_then_nested", "two_nested"]
+               "nested_then_top", "top_then_nested", "two_nested",
+               # yields in expression position (visited since the repair) and in forms that stay out of reach
+               "call_arg", "augassign", "annassign", "cond_expr", "in_match"]
 
 
 class Src:
@@ -123,6 +125,16 @@ def yield_body(rng, src, indent):
         return [f"{i}return (yield 1)"]
     if kind == "nestedfn":
         return [f"{i}def inner():", f"{i}    yield 1", f"{i}return inner"]
+    if kind == "call_arg":
+        return [f"{i}print((yield 13))"]
+    if kind == "augassign":
+        return [f"{i}total = 0", f"{i}total += (yield 14)"]
+    if kind == "annassign":
+        return [f"{i}got: int = yield 15"]
+    if kind == "cond_expr":
+        return [f"{i}return (yield 16) if True else None"]
+    if kind == "in_match":
+        return [f"{i}match 1:", f"{i}    case _:", f"{i}        yield 17"]
     if kind == "nested_then_top":
         return [f"{i}if not True:", f"{i}    yield None", f"{i}    return", f"{i}yield 8"]
     if kind == "top_then_nested":
